@@ -96,6 +96,9 @@ class SigHarness:
                 f1 = ic.snapshot(eval("lambda p{0}: (H.rec('cap', {0}, p{0}), p{0})[1]".format(i), ns), name="s{}".format(i))(f1)
         for i in named:
             f1 = ic.require(eval("lambda p{0}: H.rec('pre', {0}, p{0})".format(i), ns))(f1)
+        # the same parameters asked for through KEYWORD-ONLY parameters of the condition
+        for i in named:
+            f1 = ic.require(eval("lambda *, p{0}: H.rec('prekw', {0}, p{0})".format(i), ns))(f1)
         f1 = ic.require(lambda _ARGS: rec("pre", "_ARGS", _ARGS))(f1)
         f1 = ic.require(lambda _KWARGS: rec("pre", "_KWARGS", _KWARGS))(f1)
         self.f1 = f1
@@ -116,6 +119,15 @@ class SigHarness:
             exec(sig_source(sig, body, isasync), ns4)  # noqa
             errf4 = eval("lambda {}: ({}, ERRCLS('e'))[1]".format(args, recs), ns4)
             self.post_errf.append(ic.ensure(lambda result: False, error=errf4)(ns4["f"]))
+        # f6: the contracts decorate a BOUND METHOD (self is bound already and is not a parameter any more)
+        ns6 = {"D": self.D, "H": self}
+        src6 = sig_source(sig, body).replace("def f(", "def f(self, ", 1)
+        exec("class Holder:\n" + "".join("    " + l + "\n" for l in src6.splitlines()), ns6)  # noqa
+        self.holder = ns6["Holder"]()
+        f6 = self.holder.f
+        for i in named:
+            f6 = ic.require(eval("lambda p{0}: H.rec('prebm', {0}, p{0})".format(i), ns6))(f6)
+        self.f6 = f6
         # f3: a condition asks for a name the function does not have
         ns3 = {"D": self.D, "H": self}
         exec(sig_source(sig, body), ns3)  # noqa
@@ -179,7 +191,7 @@ def replay_vectors(res: CheckResult, vectors: List[dict], ic: Any) -> Dict[str, 
                 if got_body is not want:
                     raise MachineryError("spec Bind disagrees with CPython for {} npos={} kws={} param {}".format(
                         head, npos, kws, i))
-                for role in ("pre", "cap", "post", "old"):
+                for role in ("pre", "prekw", "cap", "post", "old"):
                     stats["values_compared"] += 1
                     got = seen.get((role, i), "<not evaluated>")
                     if got is not want:
@@ -228,6 +240,23 @@ def replay_vectors(res: CheckResult, vectors: List[dict], ic: Any) -> Dict[str, 
                                           head, npos, kws, which, h.seen.get(("errf", i)), i),
                                       {"signature": "args.contract_seen", "sig": sig, "npos": npos, "kws": kws,
                                        "param": i, "role": "errf-post"})
+            # contracts on a bound method
+            pos6, kw6, (out6, exc6) = h.call(h.f6, npos, kws)
+            if exc6 is not None or out6 is not h.RESULT:
+                res.violation("args.call_rejected", "{} as a bound method, npos={} kws={}: result {!r} exc {!r}".format(
+                    head, npos, kws, out6, exc6), {"signature": "args.call_rejected", "sig": sig, "npos": npos, "kws": kws,
+                                                   "role": "bound-method"})
+            else:
+                for i in h.named:
+                    tagk, idx = v["vals"][i - 1]
+                    want = pos6[idx - 1] if tagk == "P" else (kw6["p{}".format(idx)] if tagk == "K" else h.D[idx])
+                    stats["values_compared"] += 1
+                    if h.seen.get(("prebm", i)) is not want:
+                        res.violation("args.contract_seen",
+                                      "{} decorated as a bound method, npos={} kws={}: the precondition saw {!r} for p{} but "
+                                      "the body received {!r}".format(head, npos, kws, h.seen.get(("prebm", i)), i, want),
+                                      {"signature": "args.contract_seen", "sig": sig, "npos": npos, "kws": kws,
+                                       "param": i, "role": "bound-method"})
             # a requested name the call does not provide: TypeError naming it, the body does not run
             _, _, (out3, exc3) = h.call(h.f3, npos, kws)
             if not (isinstance(exc3, TypeError) and "q_absent" in str(exc3)) or h.body_locals is not None:
